@@ -701,7 +701,10 @@ impl UnifiedCommandExecutor {
             }
             
             StringCommand::DecrBy { key, decrement } => {
-                let result = self.storage.incr_by(db, key, -(decrement))?;
+                // i64::MIN cannot be negated
+                let increment = decrement.checked_neg().ok_or_else(|| FerrousError::Command(
+                    CommandError::Generic("decrement would overflow".to_string())))?;
+                let result = self.storage.incr_by(db, key, increment)?;
                 Ok(RespFrame::Integer(result))
             }
             
